@@ -72,6 +72,11 @@ var c16Files = Files{
 	"p_prevonce.vuego":              `<div v-for="i in three"><script v-once v-pre>QA</script><b v-pre v-once>QB</b></div><template include="pv_c.vuego"></template><template include="pv_c.vuego"></template>`,
 	"pv_c.vuego":                    `<style v-pre v-once>QC</style><i>c</i>`,
 	"p_top.vuego":                   `<b v-once>O1</b><p>x</p><b v-once>O2</b><b v-once>O3</b>`,
+	// shorthand component tags that carry v-once, in slot content a page hands to its layout (whose slot is in a loop)
+	"p_layslotcomp.vuego":         "---\nlayout: once_slotloop\n---\n<template #side><once-card v-once></once-card><once-badge v-once></once-badge><i v-once>LK</i></template><i>body</i>",
+	"layouts/once_slotloop.vuego": `<main><section v-for="i in three"><slot name="side"></slot></section><div v-html="content"></div></main>`,
+	"components/OnceCard.vuego":   `<b>LH</b>`,
+	"components/OnceBadge.vuego":  `<u>LI</u>`,
 	// a component without v-once elements that is edited (see "editrow") into one with two of them
 	"p_row.vuego": `<ul><li v-for="i in three"><template include="row.vuego"></template></li></ul><template include="row2.vuego"></template>`,
 	"row.vuego":   `<b>r</b>`,
@@ -131,6 +136,7 @@ var c16Progs = []c16Prog{
 	{"upper", "p_upper.vuego", map[string]int{"UA": 1, "UB": 1, "UC": 1, "UD": 1}, nil, "", nil},     // attribute names are case-insensitive
 	{"prevonce", "p_prevonce.vuego", map[string]int{"QA": 1, "QB": 1, "QC": 1}, nil, "", nil},        // v-pre keeps the content as written; the element is still emitted once
 	{"lay", "p_lay.vuego", map[string]int{"O1": 1, "OA": 1}, map[string]int{"OL": 1, "OL2": 1, "OO": 1, "OA": 2}, "", nil},
+	{"layslotcomp", "p_layslotcomp.vuego", nil, map[string]int{"LH": 1, "LI": 1, "LK": 1}, "", nil},
 	{"row", "p_row.vuego", map[string]int{}, nil, "", nil},     // (after "editrow": RA, RB, RC once each)
 	{"editrow", "p_row.vuego", map[string]int{}, nil, "", nil}, // rendered like "row", then the two components are replaced by versions with v-once elements
 	{"failinc", "p_failinc.vuego", map[string]int{}, nil, "", nil},
@@ -156,7 +162,7 @@ type c16Case struct {
 
 func (c *c16Case) Key() string { return core.KeyOf(c) }
 
-var c16Markers = []string{"QA", "QB", "QC", "UA", "UB", "UC", "UD", "PA", "PB", "PC", "PD", "BF", "BN", "LC", "LD", "LE", "LF", "LG", "M01", "M02", "M03", "M04", "M05", "M06", "M07", "M08", "M09", "M10", "M11", "M12", "N01", "N02", "N03", "N04", "N05", "N06", "N07", "N08", "N09", "N10", "N11", "OX", "OY", "OZ2", "OZ", "OG", "OH", "OK", "OR", "OL1", "OL2", "OL3", "OL4", "OE2", "OE", "OF", "OI", "LA", "LB", "OT", "OU", "OW", "ON", "N1W", "N1S", "N2W", "N2S", "O1", "O2", "O3", "OA", "OB2", "OB", "OC", "OAC", "OS", "OL2", "OL", "OO", "RA", "RB", "RC"}
+var c16Markers = []string{"QA", "QB", "QC", "UA", "UB", "UC", "UD", "PA", "PB", "PC", "PD", "BF", "BN", "LC", "LD", "LE", "LF", "LG", "M01", "M02", "M03", "M04", "M05", "M06", "M07", "M08", "M09", "M10", "M11", "M12", "N01", "N02", "N03", "N04", "N05", "N06", "N07", "N08", "N09", "N10", "N11", "OX", "OY", "OZ2", "OZ", "OG", "OH", "OK", "OR", "OL1", "OL2", "OL3", "OL4", "OE2", "OE", "OF", "OI", "LA", "LB", "OT", "OU", "OW", "ON", "N1W", "N1S", "N2W", "N2S", "O1", "O2", "O3", "OA", "OB2", "OB", "OC", "OAC", "OS", "OL2", "OL", "OO", "RA", "RB", "RC", "LH", "LI", "LK"}
 
 // c16Proc is registered on every engine: its pre-processing step marks elements of class "auto"
 // with v-once (a processor that de-duplicates injected assets would do this).
@@ -200,7 +206,7 @@ func (c *c16Case) Run(ctx *core.Ctx) {
 	ctx.NonTrivial()
 	data := map[string]any{"three": []int{0, 1, 2}, "t": true, "none": []int{}}
 	fsT, fsV := c16Files.FS(), c16Files.FS()
-	tpl := vuego.NewFS(fsT, vuego.WithProcessor(c16Proc{}))
+	tpl := vuego.NewFS(fsT, vuego.WithProcessor(c16Proc{}), vuego.WithComponents())
 	vue := vuego.NewVue(fsV)
 	vue.RegisterNodeProcessor(c16Proc{})
 	rowEdited := false
@@ -302,7 +308,7 @@ func init() {
 	core.Register(&core.Check{
 		ID:    "C16",
 		Level: "model_checking",
-		Rule: "38 programs: 34 placements of 1-4 v-once elements (v-once nested inside v-once at top level, in a loop and in two components included from a loop, in a component whose root is a <template> tag (inside, on and after it), on v-else / v-else-if members and on the v-else of an empty v-for inside a loop, together with v-if, together with v-for and a v-if that is false for the first item, on chain members that are loops themselves, in slot content a page hands to its layout (one and two slot templates), top level, inside v-for, on the looped element itself, in a component included 1..3 times, in two different components, in two components whose files have the same name in different directories, in a component included from a loop, nested components, slot content used once / twice / in a loop, v-if branches, page + two layouts each including the same component, twelve v-once elements in one file (IDs of more than one digit), a string template rendered on a template object that has loaded the very file the string includes, v-once together with v-pre (in a loop, in a component included twice), the directive spelled in capitals (V-ONCE, v-Once) in two components, elements a node processor marks v-once in its pre-processing step (the page's nodes: components are not pre-processed)), and two pages whose render fails - a missing include, an unknown filter - after v-once elements of the page and of shared components have been passed, and a page whose two components have no v-once elements until an edit operation (part of the histories) replaces them by versions with two and one, x 7 entry points (Load+Render, RenderFile, Vue.Render, Vue.RenderFragment, RenderString/Byte/Reader) x every history of <=L renders on one long-lived engine; " +
+		Rule: "39 programs: 34 placements of 1-4 v-once elements (v-once nested inside v-once at top level, in a loop and in two components included from a loop, in a component whose root is a <template> tag (inside, on and after it), on v-else / v-else-if members and on the v-else of an empty v-for inside a loop, together with v-if, together with v-for and a v-if that is false for the first item, on chain members that are loops themselves, in slot content a page hands to its layout (one and two slot templates), top level, inside v-for, on the looped element itself, in a component included 1..3 times, in two different components, in two components whose files have the same name in different directories, in a component included from a loop, nested components, slot content used once / twice / in a loop, v-if branches, page + two layouts each including the same component, twelve v-once elements in one file (IDs of more than one digit), a string template rendered on a template object that has loaded the very file the string includes, v-once together with v-pre (in a loop, in a component included twice), the directive spelled in capitals (V-ONCE, v-Once) in two components, elements a node processor marks v-once in its pre-processing step (the page's nodes: components are not pre-processed)), and two pages whose render fails - a missing include, an unknown filter - after v-once elements of the page and of shared components have been passed, a page whose layout slot (in a loop) receives shorthand component tags that carry v-once, and a page whose two components have no v-once elements until an edit operation (part of the histories) replaces them by versions with two and one, x 7 entry points (Load+Render, RenderFile, Vue.Render, Vue.RenderFragment, RenderString/Byte/Reader) x every history of <=L renders on one long-lived engine; " +
 			"oracle: every marked source element occurs exactly once per render (per link of a layout chain), unreached ones zero times. states = renders checked; non-trivial = all",
 		Bounds:      map[string]string{"quick": "L=2 (all ordered pairs of programs)", "thorough": "L=3 (all ordered triples)"},
 		Assumptions: []string{"markers are counted textually as >MARK< in the output"},
